@@ -71,8 +71,15 @@ class World:
         self.objs = {}
         self.digest = {}  # base token -> structure digest of the object(s) carrying it
 
+    # the specification's group name "b" is played by the empty string: a legal (if unusual) name that is NOT the None key
+    REAL = {"b": ""}
+    BACK = {"": "b"}
+
     def key(self, n):
-        return None if n == NONE else n
+        return None if n == NONE else self.REAL.get(n, n)
+
+    def names(self, mgr):
+        return [self.BACK.get(x, x) for x in mgr.group_labels]
 
     def step(self, ev):
         import menpo.transform as mt
@@ -90,10 +97,10 @@ class World:
             elif op == "get":
                 res_obj = self.mgrs[a[0]][self.key(a[1])]
             elif op == "del":
-                del self.mgrs[a[0]][a[1]]
+                del self.mgrs[a[0]][self.key(a[1])]
             elif op == "keys":
-                got = list(self.mgrs[a[0]])
-                if got != ev["keys"] or list(self.mgrs[a[0]].group_labels) != ev["keys"] or len(self.mgrs[a[0]]) != len(ev["keys"]):
+                got = [self.BACK.get(x, x) for x in self.mgrs[a[0]]]
+                if got != ev["keys"] or self.names(self.mgrs[a[0]]) != ev["keys"] or len(self.mgrs[a[0]]) != len(ev["keys"]):
                     return "keys / iteration order differs: %r, expected %r" % (got, ev["keys"])
             elif op == "copy_mgr":
                 self.mgrs[ev["res"]] = self.mgrs[a[0]].copy()
@@ -148,12 +155,12 @@ class World:
         for m, groups in view.items():
             real = self.mgrs[m]
             names = [g[0] for g in groups]
-            if list(real.group_labels) != names:
-                return "manager %d holds groups %r, the specification says %r" % (m, list(real.group_labels), names)
+            if self.names(real) != names:
+                return "manager %d holds groups %r, the specification says %r" % (m, self.names(real), names)
             if real.n_groups and real.n_dims != groups[0][1]:
                 return "manager %d n_dims %r, expected %r" % (m, real.n_dims, groups[0][1])
             for name, dim, val in groups:
-                r = self._check_obj(real[name], dim, val, "manager %d group %r" % (m, name))
+                r = self._check_obj(real[self.key(name)], dim, val, "manager %d group %r" % (m, name))
                 if r:
                     return r
         for o, val in objs.items():
@@ -175,7 +182,14 @@ class World:
 def replay(hist, owner_kind=0):
     w = World(owner_kind)
     for k, ev in enumerate(hist):
-        bad = w.step(ev)
+        try:
+            bad = w.step(ev)
+        except Exception as e:
+            from ..core import from_library
+
+            if not from_library(e):
+                raise
+            bad = "%s raised by menpo while the step was executed / its result inspected: %s" % (type(e).__name__, str(e)[:160])
         if bad:
             return {"step": k, "op": ev["op"], "args": ev["args"], "what": bad}
     return None
